@@ -142,6 +142,10 @@ def transform_one(sched, what, variant, seed, deg=False):
     cfg = dict(sched["cfg"])
     cfg["ext"] = ["quote"]
     cfg["followers"] = False
+    # every third variant of a text history mixes characters outside the BMP (surrogate pairs) into the insertions: boundaries
+    # on / behind such a character (defect F-wide-2, repaired in /repo)
+    if variant % 3 == 2 and what != "link":
+        cfg["wide"] = True
     return {"bid": "%s-v%d" % (sched["bid"], variant), "cfg": cfg, "steps": steps}
 
 
@@ -295,7 +299,7 @@ def run_all(tier, workdir):
     for i in range(RANDOM[tier]):
         rs, rt = os.path.join(wd, "rs%d.ndjson" % i), os.path.join(wd, "rt%d.ndjson" % i)
         rsch, _ncr = vlib.run_x_random(rs, rt, ["--seed", str(_h(seed, i, "quote") % (1 << 31)),
-                                              "--ops", str(14 if i % 2 == 0 else 36), "--ext", "quote", "--gc-off", "1" if i % 3 == 2 else "0"],
+                                              "--ops", str(14 if i % 2 == 0 else 36), "--ext", "quote", "--gc-off", "1" if i % 3 == 2 else "0", "--wide", "3"],
                                        max(20, (120 if tier == "quick" else 300) * SCALE // 100))
         nrand += len(rsch)
         scheds += rsch
